@@ -1,5 +1,8 @@
 import GqlProofs.Cost
 import GqlProofs.OverlapCost
+import GqlProofs.GraphCost
+import GqlProofs.VisitorCount
+import Props.C14
 /-! # C19 — Planning work is polynomial in document size (plan sites)
 
 Property theorems only. `M` = `GqlModel.Cost`: the planner of /repo/plan.go with the two `verif` step counters
@@ -17,7 +20,11 @@ does not grow with the number of object types an abstract field could resolve to
 depth or with the number of fragments that spread one another. Executing a request plans only the runtime types
 actually encountered"): for the PLAN sites it is the conjunction of the plan theorems below; the VALIDATION part
 is `overlap_cost_poly` / `overlap_cost_quartic` (calls of `findConflict` ≤ 5·N⁴, every factor a syntactic size) together
-with c02b's memo-body bounds; that the growth is in practice quadratic is measured (fitted exponent), not proved. -/
+with c02b's memo-body bounds; that the growth is in practice quadratic is measured (fitted exponent), not proved.
+The REST of validation: the five graph rules and the `ValidationContext` helpers are bounded in the section "graph rules"
+(`graph_rules_work_cached`: ≤ 4N + O·(6 + 3F + S + 4U) + cycles), the visitor-driven local rules in
+`local_rules_callbacks` (≤ 2·nodes·24 callbacks in one traversal). Not counted anywhere: the work inside a callback and
+the construction of error values (linear in the source length per reported location). -/
 namespace GqlModel.Cost
 
 /-- number of `collectInto` calls `PlanQuery` can make: the operation's own selection set, the inline fragments
@@ -389,6 +396,126 @@ theorem overlap_memo_bodies (s : Schema) (d : Document) :
 
 end GqlModel.Validate.Overlap
 
+/-! ## Validation: the graph rules and the `ValidationContext` helpers
+
+Model: worker c02b's `GqlModel.Validate.Graph` (`fragmentSpreads`, `recursivelyReferenced`, `detect`/`cycleRun`,
+`varUsagesOp/Frag`, `recursiveUsages`, the five rules). `GqlModel/GraphCost.lean` adds instrumented twins of the three loop
+algorithms (same code + a step counter) and the work of the rules as a function of the step counts.
+Unit of work: one iteration of a Go loop body / one visitor callback. -/
+namespace GqlModel.Validate.Graph
+open GqlModel.Validate
+
+/-- T1. The instrumented twins ARE the modelled algorithms: erasing the counters gives back c02b's functions (whose
+agreement with /repo is checked by C02's correspondence). -/
+theorem step_counters_erase (tbl : List Frag) (fsCost : SelectionSet → Nat) :
+    (∀ fuel stk acc n, (fsLoopC fuel stk acc n).1 = fsLoop fuel stk acc) ∧
+    (∀ fuel stk col frs n, (rrfLoopC tbl fsCost fuel stk col frs n).1 = rrfLoop tbl fuel stk col frs) ∧
+    (∀ fuel f sc, (detectC tbl fuel f sc).1 = detect tbl fuel f sc.1) ∧
+    (cycleRunC tbl).1 = cycleRun tbl :=
+  ⟨fsLoopC_erase, rrfLoopC_erase tbl fsCost, detectC_erase tbl, cycleRunC_erase tbl⟩
+
+/-- T1 `FragmentSpreads(ss)`, computed from scratch, pops every selection set at or below `ss` exactly once and scans
+every selection exactly once; it returns one entry per spread node. -/
+theorem fragmentSpreads_steps (ss : SelectionSet) :
+    fsSteps ss = setsSet ss + selsSet ss ∧ fsSteps ss ≤ nodesSet ss ∧ (fragmentSpreads ss).length = nSpreadsSet ss :=
+  ⟨fsSteps_eq ss, fsSteps_le_nodes ss, fragmentSpreads_length ss⟩
+
+/-- T1 `RecursivelyReferencedFragments(op)` (whatever a `FragmentSpreads` request costs, `fsCost`): the operation's
+selection set and the selection set of every fragment it returns are popped exactly once; the returned fragments
+are definitions of the table with pairwise different names — at most one per definition, on ANY spread graph
+(cycles, duplicate names, undefined names). `collectedNames` is what guarantees it. -/
+theorem recursivelyReferenced_steps (tbl : List Frag) (fsCost : SelectionSet → Nat) (opSel : SelectionSet) :
+    rrfSteps tbl fsCost opSel =
+      popCost fsCost opSel + popSum fsCost ((recursivelyReferenced tbl opSel).map (·.sel)) ∧
+    (recursivelyReferenced tbl opSel).length ≤ tbl.length ∧
+    (∀ f, f ∈ recursivelyReferenced tbl opSel → f ∈ tbl) ∧
+    ((recursivelyReferenced tbl opSel).map (·.name.value)).Nodup :=
+  rrfSteps_eq tbl fsCost opSel
+
+/-- T1 NoFragmentCycles: at most one `detectCycleRecursive` call per fragment definition (`visitedFrags`), at most
+`maxSpreads` loop iterations per call, and every reported cycle copies a path no longer than the recursion is deep:
+calls ≤ F, iterations ≤ F·S, copied path entries ≤ F·S·(F+2). -/
+theorem cycle_detection_steps (tbl : List Frag) :
+    (cycleRunC tbl).2.calls ≤ tbl.length ∧
+    (cycleRunC tbl).2.iters ≤ tbl.length * maxSpreads tbl ∧
+    (cycleRunC tbl).2.errLen ≤ tbl.length * maxSpreads tbl * (tbl.length + 2) := by
+  obtain ⟨h1, h2, h3⟩ := cycleRunC_le tbl
+  have a2 : (cycleRunC tbl).2.iters ≤ tbl.length * maxSpreads tbl :=
+    Nat.le_trans h2 (Nat.mul_le_mul_right _ h1)
+  exact ⟨h1, a2, Nat.le_trans h3 (Nat.mul_le_mul_right _ a2)⟩
+
+/-- T2 `graph_rules_work_uncached`: the five graph rules WITHOUT the four caches of `ValidationContext` — every rule
+re-traverses, for every operation, the operation and its whole fragment closure:
+work ≤ `O·(4 + 4F + 21N)` + cycles, `O` operations, `F` fragment definitions, `N = docNodes` AST nodes. -/
+theorem graph_rules_work_uncached (s : Schema) (d : Document) :
+    graphWorkUncached s d ≤ graphBoundUncached (nOps d) (nFragDefs d) (docNodes d) :=
+  graphWorkUncached_le s d
+
+/-- T2 `graph_rules_work_cached`: the code as it is. One pass over the document (`4N`), the cycle rule, and per
+operation only the pops of its closure (≤ 3F), the spread LISTS scanned (≤ S = spread nodes of the document) and the
+usage LISTS concatenated and looped over by three rules (≤ 4U, U = variable usages of the document):
+work ≤ `4N + O·(6 + 3F + S + 4U)` + cycles. What the caches buy: the per-operation term counts list entries (S, U)
+instead of AST nodes (21·N per operation without them). -/
+theorem graph_rules_work_cached (s : Schema) (d : Document) :
+    graphWorkCached s d ≤ graphBoundCached (nOps d) (nFragDefs d) (docNodes d) (docSpreads d) (docUsages s d) :=
+  graphWorkCached_le s d
+
+/-- the list sizes are themselves at most the document size -/
+theorem list_sizes_le_docNodes (s : Schema) (d : Document) :
+    docSpreads d ≤ docNodes d ∧ docUsages s d ≤ docNodes d ∧ nFragDefs d ≤ docNodes d ∧ nOps d ≤ docNodes d := by
+  refine ⟨docSpreads_le_docNodes d, docUsages_le_docNodes s d, ?_, ?_⟩
+  · have : nFragDefs d ≤ fragNodes d := by
+      simp only [nFragDefs, fragNodes]
+      generalize fragDefs d = l
+      induction l with
+      | nil => simp
+      | cons f rest ih => simp only [List.length_cons, List.map_cons, List.sum_cons, nodesFrag]; omega
+    simp only [docNodes_split]; omega
+  · have : nOps d ≤ opNodes d := by
+      simp only [nOps, opNodes]
+      generalize opDefs d = l
+      induction l with
+      | nil => simp
+      | cons o rest ih => simp only [List.length_cons, List.map_cons, List.sum_cons, nodesOp]; omega
+    simp only [docNodes_split]; omega
+
+end GqlModel.Validate.Graph
+
+/-! ## Validation: the visitor-driven local rules — one traversal, a bounded number of callbacks
+
+`ValidateDocument` runs all rules as sub-visitors of ONE `VisitInParallel` traversal (validator.go `VisitUsingRules`).
+On C14's model of `visitor.Visit` / `VisitInParallel` (its correspondence with /repo is C14's check): -/
+namespace GqlModel.Visitor
+
+theorem zipWith_countV (pols : List Policy) (root : Node) :
+    List.zipWith (fun v st => ((walk v root st).1, markOf (walk v root st).2)) (pols.map countV) (pols.map (fun _ => 0)) =
+      pols.map (fun p => ((walk (countV p) root 0).1, markOf (walk (countV p) root 0).2)) := by
+  induction pols with
+  | nil => rfl
+  | cons p rest ih => simp only [List.map_cons, List.zipWith_cons_cons, ih]
+
+/-- T1 `local_rules_callbacks`: for every tree with distinct node identities and every list of `k` rules — each
+abstracted to "counts its callbacks, decides continue / skip / break by an arbitrary policy" — the ONE traversal that
+`VisitInParallel` drives makes at most `2 · nodes · k` rule callbacks in total (exactly that many when no rule skips
+or breaks: `walk_count_allCont`). Reuses `parallel_projection` (C14); the per-callback work of a rule is a constant
+number of schema lookups (`TypeInfo`), outside this count. -/
+theorem local_rules_callbacks (pols : List Policy) (root : Node) (hnd : root.pre.Nodup) :
+    (((walk (parallel (pols.map countV)) root (pols.map (fun _ => ((0 : Nat), Mark.active)))).1).map (·.1)).sum
+      ≤ 2 * root.pre.length * pols.length := by
+  have h := parallel_projection (pols.map countV) (pols.map (fun _ => (0 : Nat))) root (by simp) hnd
+  simp only [List.map_map, Function.comp_def] at h
+  rw [h, zipWith_countV]
+  simp only [List.map_map, Function.comp_def]
+  have := GqlModel.Validate.Graph.sum_map_le_mul (fun p => (walk (countV p) root 0).1) pols (2 * root.pre.length)
+    (fun p _ => walk_count_le p root)
+  rw [Nat.mul_comm] at this
+  exact this
+
+/-- the number of rules, from the table regenerated from /repo's `SpecifiedRules` on every run -/
+theorem specified_rules_count : Generated.specifiedRules.length = 24 := by decide
+
+end GqlModel.Visitor
+
 namespace GqlModel.Cost
 
 /-! ## Non-vacuity -/
@@ -458,4 +585,16 @@ def ovDoc : Document :=
 example : locsDistinct ovDoc = true := by decide +kernel
 example : (overlapM GqlModel.Cost.exSchema ovDoc).1.nFC = 4 := by decide +kernel
 example : overlapBound ovDoc = 350 ∧ docSize ovDoc = 11 := by decide +kernel
+
+open GqlModel.Validate.Graph in
+/-- graph rules on the same (cyclic) document: one `detectCycleRecursive` call, one loop iteration, one error of path
+length 1; work 82 with the caches (bound 131), 232 without (bound 713) -/
+example : (cycleRunC (fragDefs ovDoc)).2 = ⟨1, 1, 1⟩ ∧ (cycleRunC (fragDefs ovDoc)).1.errs.length = 1 := by decide +kernel
+open GqlModel.Validate.Graph in
+example : graphWorkCached GqlModel.Cost.exSchema ovDoc = 82 ∧
+    graphBoundCached (nOps ovDoc) (nFragDefs ovDoc) (docNodes ovDoc) (docSpreads ovDoc) (docUsages GqlModel.Cost.exSchema ovDoc) = 131 := by
+  decide +kernel
+open GqlModel.Validate.Graph in
+example : graphWorkUncached GqlModel.Cost.exSchema ovDoc = 232 ∧
+    graphBoundUncached (nOps ovDoc) (nFragDefs ovDoc) (docNodes ovDoc) = 713 := by decide +kernel
 end GqlModel.Validate.Overlap
